@@ -30,3 +30,73 @@ contract(SQ + "pop", props=["C13", "C15"], returns="Tuple[DT,Fun]",
                                   "and forall(lambda o=ScheduledJob: implies(not same_object(o, j), (o in self._queue) == old(o in self._queue))))"),
                   ("minimum", "forall(lambda o=ScheduledJob: implies(old(o in self._queue), result[0] <= o.when))")],
          modifies=["content(self._queue)"])
+
+# ---------------------------------------------------------------------------------------------------------------------
+# logs.backtesting_log_mode (C14: "Whatever way a run ends, process-wide logging afterwards behaves as it did before")
+# verified as a context manager: the with-body is an arbitrary suspension that ends normally or raises
+# ---------------------------------------------------------------------------------------------------------------------
+contract("basana.core.logs.backtesting_log_mode", props=["C14"], types={"dispatcher": "EventDispatcher"},
+         ensures=[("factory_restored", "log_factory_restored()")],
+         raises={"Exception": [("factory_restored", "log_factory_restored()")],
+                 "CancelledError": [("factory_restored", "log_factory_restored()")]},
+         modifies=[])
+
+# ---------------------------------------------------------------------------------------------------------------------
+# helpers.TaskPool (C14 bounded concurrency / no internal error; C12, C13 barrier `wait()`)
+# Two interference models (rely = what other coroutines may do to the pool while this one is suspended):
+#   default   the pool is driven by one coroutine (the backtesting dispatch loop): nobody else touches it
+#   @shared   several coroutines push into / wait on the pool concurrently (realtime: gather(_push_scheduled,
+#             _push_events), the gathered idle pushes): the others run push/_wait_impl themselves, so `_tasks` may lose
+#             and gain members, bounded by `_max_size`
+# ---------------------------------------------------------------------------------------------------------------------
+TP = H + "TaskPool."
+specfun("tp_wf", ["p"], "p._max_size > 0 and len(p._tasks) <= p._max_size")
+SHARED = dict(variant="shared", rely_havoc=["content(self._tasks)", "content(self._done)"],
+              rely=[("bounded", "len(self._tasks) <= self._max_size")])
+contract(TP + "__init__", props=["C14"], raises={"AssertionError": [("bad_size", "size <= 0")]},
+         ensures=[("wf", "tp_wf(self)"), ("empty", "len(self._tasks) == 0 and len(self._done) == 0 and self._max_size == size")],
+         modifies=["self"])
+contract(TP + "idle", props=["C15"], returns="Bool", ensures=[("def", "result == (len(self._tasks) == 0)")], modifies=[])
+contract(TP + "pop_done", props=["C14"], returns="List[Task]",
+         ensures=[("moved", "same_object(result, old(self._done)) and len(self._done) == 0")], modifies=["self._done"])
+contract(TP + "cancel", props=["C14"],
+         ensures=[("all_requested", "forall(lambda t=Task: implies(t in self._tasks, t.finished or t.cancel_requested))")],
+         modifies=["every(Task, 'cancel_requested')"],
+         loops={0: dict(invariant=[("seen", "forall(lambda t=Task: implies(t in SEEN, t.finished or t.cancel_requested))")],
+                        modifies=["every(Task, 'cancel_requested')"])})
+WAIT_LOOP_DEFAULT = {0: dict(invariant=[
+    ("rest", "forall(lambda t=Task: (t in self._tasks) == (ENTRY(t in self._tasks) and not (t in SEEN)))"),
+    ("count", "len(self._tasks) + card(SEEN) == ENTRY(len(self._tasks))")],
+    modifies=["content(self._tasks)", "content(self._done)"])}
+WAIT_LOOP_SHARED = {0: dict(invariant=[("bound", "len(self._tasks) <= ENTRY(len(self._tasks))")],
+                            modifies=["content(self._tasks)", "content(self._done)"])}
+for var, kw, loops_ in ((None, {}, WAIT_LOOP_DEFAULT), ("shared", SHARED, WAIT_LOOP_SHARED)):
+    single = var is None
+    contract(TP + "_wait_impl", props=["C14"], types={"timeout": "Opt[Real]", "return_when": "Str"}, returns="Bool",
+             requires=[("wf", "tp_wf(self)")], may_suspend=True, cancellable=True,
+             ensures=[("wf", "tp_wf(self)")] + ([
+                 ("only_removes", "forall(lambda t=Task: implies(t in self._tasks, old(t in self._tasks)))"),
+                 ("removed_finished", "forall(lambda t=Task: implies(old(t in self._tasks) and not (t in self._tasks), t.finished))"),
+                 ("barrier", "implies(is_none(timeout) and return_when == 'ALL_COMPLETED', len(self._tasks) == 0)"),
+                 ("progress", "implies(is_none(timeout) and old(len(self._tasks)) > 0, len(self._tasks) < old(len(self._tasks)))"),
+             ] if single else []),
+             # C14: never an internal error (KeyError from set.remove): only the caller's cancellation may escape
+             raises={"CancelledError": []},
+             modifies=["content(self._tasks)", "content(self._done)"], loops=loops_, **kw)
+    contract(TP + "wait", props=["C14", "C12", "C13"], types={"timeout": "Opt[Real]"}, returns="Bool",
+             requires=[("wf", "tp_wf(self)")], may_suspend=True, cancellable=True,
+             ensures=[("wf", "tp_wf(self)")] + ([
+                 ("only_removes", "forall(lambda t=Task: implies(t in self._tasks, old(t in self._tasks)))"),
+                 ("barrier", "implies(is_none(timeout), len(self._tasks) == 0)")] if single else []),
+             raises={"CancelledError": []},
+             modifies=["content(self._tasks)", "content(self._done)"], **kw)
+    contract(TP + "push", props=["C14"], types={"coroutine": "Any"},
+             requires=[("wf", "tp_wf(self)")], may_suspend=True, cancellable=True,
+             ensures=[("bounded", "tp_wf(self)"),
+                      ("added", "exists(lambda t=Task: fresh(t) and (t in self._tasks))")] + ([
+                 ("others_from_before", "forall(lambda t=Task: implies(t in self._tasks, fresh(t) or old(t in self._tasks)))")] if single else []),
+             raises={"CancelledError": []},
+             modifies=["content(self._tasks)", "content(self._done)"],
+             loops={0: dict(invariant=[("wf", "tp_wf(self)")] + ([
+                 ("subset", "forall(lambda t=Task: implies(t in self._tasks, ENTRY(t in self._tasks)))")] if single else []),
+                 modifies=["content(self._tasks)", "content(self._done)"])}, **kw)
